@@ -262,13 +262,13 @@ func probeSpec(p *Program) adapt.Spec {
 	s := p.Spec
 	switch s.Kind {
 	case "cache":
-		ps := adapt.Spec{Kind: "map", Presize: 96}
+		ps := adapt.Spec{Kind: "map", Presize: 96, GrowOnly: s.GrowOnly}
 		if s.Presize > 96 {
 			ps.Presize = s.Presize
 		}
 		return ps
 	case "cacheof":
-		ps := adapt.Spec{Kind: "mapof", Key: s.Key, Presize: 96}
+		ps := adapt.Spec{Kind: "mapof", Key: s.Key, Presize: 96, GrowOnly: s.GrowOnly}
 		if s.Presize > 96 {
 			ps.Presize = s.Presize
 		}
